@@ -185,4 +185,102 @@ theorem consume_render (fenv : FEnv) (tbl : List Act) (segs : List Seg) (fuel : 
         simp only
         exact ih n st' (by simp at hfuel; omega) (fun x hx => hc x (by simp [hx]))
 
+/-! ### `_get_values` in terms of the per-token converter -/
+
+/-- the value argparse hands to an action for converted items `vs` (`_get_values`) -/
+def segVal (n : NArgs) (vs : List Scalar) : Val :=
+  match vs, n with
+  | [], .opt => .sc .none
+  | [v], .one => .sc v
+  | [v], .opt => .sc v
+  | _, _ => .list vs
+
+theorem getValuesList_length (fenv : FEnv) (act : Act) (i : Nat) (cs cs' : List Nat)
+    (toks : List Str) (vs : List Scalar) (h : getValuesList fenv act i cs toks = .ok (vs, cs')) :
+    vs.length = toks.length := by
+  induction toks generalizing cs cs' vs with
+  | nil => simp only [getValuesList, Except.ok.injEq, Prod.mk.injEq] at h; simp [← h.1]
+  | cons t ts ih =>
+    simp only [getValuesList] at h
+    cases h1 : getValue fenv act i cs t with
+    | error e => rw [h1] at h; cases h
+    | ok p =>
+      obtain ⟨v, c1⟩ := p
+      rw [h1] at h
+      simp only at h
+      cases h2 : getValuesList fenv act i c1 ts with
+      | error e => rw [h2] at h; cases h
+      | ok q =>
+        obtain ⟨vs2, c2⟩ := q
+        rw [h2] at h
+        simp only [Except.ok.injEq, Prod.mk.injEq] at h
+        rw [← h.1]
+        simp [ih c1 c2 vs2 h2]
+
+theorem getValuesList_single (fenv : FEnv) (act : Act) (i : Nat) (cs : List Nat) (s : Str) :
+    getValuesList fenv act i cs [s] =
+      (match getValue fenv act i cs s with
+       | .error e => .error e
+       | .ok (v, c1) => .ok ([v], c1)) := by
+  simp only [getValuesList]
+  cases hg : getValue fenv act i cs s with
+  | error e => rfl
+  | ok p => obtain ⟨v, c1⟩ := p; rfl
+
+/-- `_get_values` succeeds exactly when the per-token conversion does, with the packaged value -/
+theorem getValues_ok_iff (fenv : FEnv) (act : Act) (i : Nat) (cs : List Nat) (toks : List Str) :
+    getValues fenv act i cs toks =
+      (match getValuesList fenv act i cs toks with
+       | .error e => .error e
+       | .ok (vs, c1) => .ok (segVal act.nargs vs, c1)) := by
+  unfold getValues
+  match toks, act.nargs with
+  | [], .opt => simp [getValuesList, segVal]
+  | [s], .one =>
+    rw [getValuesList_single]
+    cases hg : getValue fenv act i cs s with
+    | error e => simp [Except.map, hg]
+    | ok p => obtain ⟨v, c1⟩ := p; simp [Except.map, segVal, hg]
+  | [s], .opt =>
+    rw [getValuesList_single]
+    cases hg : getValue fenv act i cs s with
+    | error e => simp [Except.map, hg]
+    | ok p => obtain ⟨v, c1⟩ := p; simp [Except.map, segVal, hg]
+  | [], .one => simp [getValuesList, segVal, Except.map]
+  | [], .star => simp [getValuesList, segVal, Except.map]
+  | [], .plus => simp [getValuesList, segVal, Except.map]
+  | [], .num _ => simp [getValuesList, segVal, Except.map]
+  | [s], .star =>
+    cases h : getValuesList fenv act i cs [s] with
+    | error e => simp [Except.map]
+    | ok p =>
+      obtain ⟨vs, c1⟩ := p
+      have := getValuesList_length fenv act i cs c1 [s] vs h
+      match vs, this with
+      | [v], _ => simp [Except.map, segVal]
+  | [s], .plus =>
+    cases h : getValuesList fenv act i cs [s] with
+    | error e => simp [Except.map]
+    | ok p =>
+      obtain ⟨vs, c1⟩ := p
+      have := getValuesList_length fenv act i cs c1 [s] vs h
+      match vs, this with
+      | [v], _ => simp [Except.map, segVal]
+  | [s], .num _ =>
+    cases h : getValuesList fenv act i cs [s] with
+    | error e => simp [Except.map]
+    | ok p =>
+      obtain ⟨vs, c1⟩ := p
+      have := getValuesList_length fenv act i cs c1 [s] vs h
+      match vs, this with
+      | [v], _ => simp [Except.map, segVal]
+  | s1 :: s2 :: ss, n =>
+    cases h : getValuesList fenv act i cs (s1 :: s2 :: ss) with
+    | error e => cases n <;> simp [Except.map]
+    | ok p =>
+      obtain ⟨vs, c1⟩ := p
+      have := getValuesList_length fenv act i cs c1 (s1 :: s2 :: ss) vs h
+      match vs, this with
+      | v1 :: v2 :: vv, _ => cases n <;> simp [Except.map, segVal]
+
 end SpVerif
